@@ -16,6 +16,7 @@ import Driver.Res
 import Driver.Thr
 import Driver.Os
 import Driver.Attr
+import Driver.Bounds
 
 def main (args : List String) : IO UInt32 := do
   let stdin ← IO.getStdin
@@ -38,4 +39,5 @@ def main (args : List String) : IO UInt32 := do
   | ["thr"] => Driver.Thr.run stdin; return 0
   | ["os"] => Driver.Os.run stdin; return 0
   | ["attr"] => Driver.Attr.run stdin; return 0
+  | ["bounds"] => Driver.Bounds.run stdin; return 0
   | _ => IO.eprintln "usage: kdfdrv <stream>"; return 2
